@@ -6,6 +6,8 @@ CONST = {'alive': 'ok', 'scrape-during-load': 'ok'}
 def run(ctx):
     common.go_build(['corrserver'])
     service.audit_service(ctx, 'C09')
+    common.lake_build(['Smtb.Properties.C07Link'])
+    common.audit(ctx, 'Smtb/Properties/C07Link.lean', ['Smtb.Properties.C07Link.respond_200_iff_circuit_satisfiable', 'Smtb.Properties.C07Link.respond_ok_iff_circuit_satisfiable'])
     ctx.assumptions += [service.IDEAL,
                         "request decoding is the C16 codec model; the circuit relation is the right-hand side of the C03 theorems",
                         "partial: 'no request makes the handler crash or hang' is a runtime fact: the model is total, the harness observes liveness (a sentinel request after each history, client timeouts, the server must stay up)"]
